@@ -282,7 +282,7 @@ def m_str_split(I, state, frame, bi, t, args, span):
         patc = list(pat[1])[0][1]
     provs = s[1] if s is not None else frozenset([("unknown",)])
     piece = ("str", frozenset([("piece", provs, patc)]), frozenset([(patc, False)]) if patc else frozenset())
-    return [(("iter", ("av", piece)), state)]
+    return [(("iter", ("fresh", ("av", piece))), state)]     # `split` yields at least one piece
 
 
 @model("core::str::<impl str>::split_once")
@@ -1092,6 +1092,8 @@ def instantiate(I, state, frame, bi, tmpl, span, anonymous=False, tag=""):
     """Produce the element(s) an iterator with template `tmpl` can yield: [(elem AV, state)]."""
     L = I.layout
     k = tmpl[0]
+    if k == "fresh":
+        return instantiate(I, state, frame, bi, tmpl[1], span, anonymous, tag)
     if k == "jobs":
         sym = fresh_sym(I, frame, bi, "jobs" + tag)
         kav = bind_key(I, state, sym, ["alljobs"])
@@ -1227,6 +1229,15 @@ def next_common(I, state, frame, bi, t, args, span):
                if hk[0] == "job" and isinstance(hk[1], tuple) and hk[1][:3] == ("b", frame.fid, bi)]:
         none_state.heap[hk] = DEAD
     res.append((adt(OPTION, {0: ()}), none_state))
+    if it[0] == "iter" and it[1] and it[1][0] == "fresh" and a[0] == "ref" and a[1][0] == "local":
+        # first step of an iterator known to be non-empty: it yields; the iterator is stepped (no longer fresh)
+        res = []
+        st0 = state.copy()
+        cur = I.load_root(st0, a[1])
+        I.store_root(st0, a[1], av_set(cur, a[2], ("iter", it[1][1]), I.uni) if a[2] else ("iter", it[1][1]))
+        for (e, st) in instantiate(I, st0, frame, bi, it[1][1], span):
+            res.append((some(e), st))
+        return res
     if it[0] == "iter":
         for (e, st) in instantiate(I, state.copy(), frame, bi, it[1], span):
             res.append((some(e), st))
@@ -1552,8 +1563,7 @@ def m_all_any(is_all):
                   dict(fn=frame.body.name, bb=bi, span=span, all=is_all, iter=it if it[0] == "iter" else None,
                        may_true=may_true, may_false=may_false, stack=frame.stack))
         # `str::split` yields at least one piece: the quantifier is not vacuous
-        nonempty = (it[0] == "iter" and it[1][0] == "av" and it[1][1] is not None and it[1][1][0] == "str"
-                    and it[1][1][1] and all(p[0] == "piece" for p in it[1][1][1]))
+        nonempty = it[0] == "iter" and it[1][0] == "fresh"
         if is_all:
             vals = ([True] if (may_true or not nonempty) else []) + ([False] if may_false else [])
         else:
